@@ -567,6 +567,11 @@ func runC10(w *World, r *Report) {
 		r.Check(good, "C10.tool-runinfo", n, f.Pos(), "run info and call id derived from the task", "tool call does not get its own run info / call id:"+det)
 	}
 
+	r.Rule("C10.designated-paths-all-forwarded", "extractOption visits every designated path of every option (a callbacks option designating several nodes reaches all of them, nested ones included) — the loops are left only when exhausted or with an error (shared with C16.visits-all)", 3)
+	ruleLoopsTotal(w, r, "C10.designated-paths-all-forwarded", []*ssa.Function{w.Fn("compose", "extractOption")}, map[string]string{}, "a handler designated through a later path of the same option fires neither at the start nor at the end of that node")
+	r.Rule("C10.copies-from-current-position", "the copies of an array-backed stream made for callback handlers start where the original stands (shared with C04 / C08): attaching a handler must not replay chunks the graph has already consumed", 1)
+	arrayCopyCheck(w, r, "C10.copies-from-current-position")
+
 	// ---- designation
 	r.Rule("C10.designation", "graph-level handlers = options without path; node handlers = options whose path has exactly one element equal to the node key", 2)
 	designationChecks(w, r, "C10.designation")
